@@ -300,12 +300,19 @@ def decide_site(ctx, o, fixed_env=None):
                 return True, "operands of the addition are bitwise disjoint"
         except Uncertified:
             pass
-    # small support
-    try:
-        from .cards import result_deps
-        deps = sorted(result_deps(pdb, v))
-    except Uncertified:
-        deps = None
+    # small support (skipped for very large conditions: the bit abstraction of a long chain of selects is not small)
+    deps = None
+    size = 0
+    for _x in walk(v):
+        size += 1
+        if size > 4000:
+            break
+    if size <= 4000:
+        try:
+            from .cards import result_deps
+            deps = sorted(result_deps(pdb, v))
+        except Uncertified:
+            deps = None
     if deps is not None and len(deps) <= 20:
         atoms_ = {}
         for x in walk(v):
